@@ -44,7 +44,13 @@ func c10Wire(kind int, hbh uint32) []byte {
 		return peer.StdCER(hbh, hbh, 4)
 	case pCERbad:
 		// the ways a CER can be unacceptable rotate with the identifier
-		switch hbh % 5 {
+		switch hbh % 7 {
+		case 5: // acceptable but for the missing Origin-Host
+			b := peer.StdCER(hbh, hbh, 4)
+			return cutAVP(b, peer.OriginHost)
+		case 6: // acceptable but for the missing Origin-Realm
+			b := peer.StdCER(hbh, hbh, 4)
+			return cutAVP(b, peer.OriginRealm)
 		case 1: // the application only inside a Vendor-Specific-Application-Id, Vendor-Id first, unsupported
 			return peer.CERWith(hbh, hbh, peer.Group(peer.VSApp, peer.U32(peer.VendorID, 10415), peer.U32(peer.AuthApp, 99999)))
 		case 2: // a Vendor-Specific-Application-Id without any application id
@@ -76,6 +82,23 @@ func c10Wire(kind int, hbh uint32) []byte {
 	}
 }
 
+// cutAVP removes the first top-level AVP with the given code from a message image.
+func cutAVP(msg []byte, code uint32) []byte {
+	recs, _, err := refcodec.Frame(msg[20:])
+	if err != nil {
+		return msg
+	}
+	for _, r := range recs {
+		if r.Code == code {
+			end := 20 + r.Off + (int(r.Length)+3)&^3
+			out := append(append([]byte(nil), msg[:20+r.Off]...), msg[end:]...)
+			out[1], out[2], out[3] = byte(len(out)>>16), byte(len(out)>>8), byte(len(out))
+			return out
+		}
+	}
+	return msg
+}
+
 type hlog struct {
 	mu      sync.Mutex
 	entries []string
@@ -98,6 +121,10 @@ func (l *hlog) snapshot() []string {
 func instrument(machine *sm.StateMachine, l *hlog, allByIdx bool) {
 	h := func(key string) diam.HandlerFunc {
 		return func(_ diam.Conn, m *diam.Message) { l.add(key, m) }
+	}
+	if allByIdx {
+		// the application subscribed to handshake notifications once and does not read them
+		_ = machine.HandshakeNotify()
 	}
 	machine.HandleFunc("ACR", h("name"))
 	machine.HandleIdx(diam.CommandIndex{AppID: 4, Code: 272, Request: true}, h("index"))
